@@ -213,6 +213,28 @@ def cmp_s_gt_e(g, s, e):
     return table.get((op, tv))
 
 
+def saturating_len(V, body, t):
+    """t = (end_idx + 1).saturating_sub(start_idx)  ->  (s, e) terms, else None.  Equal to `if s > e {0} else {e - s + 1}` for all
+    s, e (e + 1 <= s whenever s > e), and e + 1 cannot overflow: both are positions < N <= 65534"""
+    t = V.strip(t)
+    if t[0] != 'call' or t[1] != 'int::saturating_sub' or len(t[2]) != 2:
+        return None
+    x, s = V.strip(t[2][0]), t[2][1]
+    e = None
+    if x[0] == 'bin' and x[1] in ('Add', 'Add_checked'):
+        if x[3] == ('int', 'usize', 1):
+            e = x[2]
+        elif x[2] == ('int', 'usize', 1):
+            e = x[3]
+    elif x[0] == 'call' and x[1] == 'int::wrapping_add' and x[2][1] == ('int', 'usize', 1):
+        e = x[2][0]
+    if e is None:
+        return None
+    if not (index_arg(V, body, s) == 0 and index_arg(V, body, e) == 1):
+        return None
+    return s, e
+
+
 def check_range(inst, V, ctx, body, spath, kind, roles):
     """body of range(); spath: iterator struct; kind/roles from the C06 analysis of the struct"""
     alts = body.ret_alternatives()
@@ -241,6 +263,17 @@ def check_range(inst, V, ctx, body, spath, kind, roles):
         seen_empty = seen_slice = False
         for asite, at in ialts:
             srcx = V.iter_source(at)
+            if srcx and srcx[0] == 'copied' and srcx[1][0] == 'subslice2' and srcx[1][1][0] == 'T3' and len(ialts) == 1:
+                # TABLE[start_idx..][..len] with len = (end_idx + 1).saturating_sub(start_idx): positions start..=end, empty when start > end;
+                # start_idx < N and len <= N - start_idx, so neither index operation can panic
+                r1, r2 = V.strip(srcx[1][2]), V.strip(srcx[1][3])
+                if r1[0] == 'agg' and r1[1].endswith('RangeFrom|RangeFrom') and r2[0] == 'agg' and r2[1].endswith('RangeTo|RangeTo'):
+                    se = saturating_len(V, body, r2[2][0])
+                    if se is not None and index_arg(V, body, r1[2][0]) == 0:
+                        if not (check_index(inst, V, ctx, body, se[0], 0) and check_index(inst, V, ctx, body, se[1], 1) and check_index(inst, V, ctx, body, r1[2][0], 0)):
+                            return False
+                        ctx.ok('constructor', inst)
+                        return True
             if not srcx or srcx[0] != 'copied' or srcx[1][0] != 'subslice' or srcx[1][1][0] != 'T3':
                 _bad(ctx, inst, 'constructor', 'range() iterates %s, required a sub-slice of the variant table' % show(at), 'unrecognised'); return False
             rng = V.strip(srcx[1][2])
@@ -280,6 +313,13 @@ def check_range(inst, V, ctx, body, spath, kind, roles):
     if V.strip(ops[f]) != some(A) or V.strip(ops[bk]) != some(B):
         _bad(ctx, inst, 'constructor', 'range(start, end) sets front=%s back=%s, required Some(start) / Some(end)' % (show(ops[f]), show(ops[bk])), cls='/cursors'); return False
     lt = ops[L]
+    se = saturating_len(V, body, lt)
+    if se is not None:
+        if not (check_index(inst, V, ctx, body, se[0], 0) and check_index(inst, V, ctx, body, se[1], 1)):
+            return False
+        ctx.obligation(True, 2)
+        ctx.ok('constructor', inst)
+        return True
     if lt[0] != 'phi' or len(lt[2]) != 2:
         _bad(ctx, inst, 'constructor', 'len is %s, required `if start_idx > end_idx {0} else {end_idx - start_idx + 1}`' % show(lt), 'unrecognised' if lt[0] != 'int' else 'refuted'); return False
     zero = [a for a in lt[2] if a[1] == ('int', 'usize', 0)]
